@@ -121,6 +121,31 @@ int main() {
                 sparse::post_mult_diagonal<Q, int>(A, dr);
                 std::cout << "post " << mstr(dense_of(A)) << "\n";
             }
+            else if (c == "csc.scale") {
+                // storage level: outer/inner arrays and the value array after pre_mult_diagonal, then after post_mult_diagonal
+                RawS a = raw(t);
+                SMat A = sparse_of(a, false);
+                DVec dl = t.vec(a.r), dr = t.vec(a.c);
+                sparse::pre_mult_diagonal<Q, int>(A, dl);
+                std::ostringstream pre; for (isize k = 0; k < A.nonZeros(); k++) pre << (k ? " " : "") << A.valuePtr()[k].str();
+                sparse::post_mult_diagonal<Q, int>(A, dr);
+                std::cout << "cscouter"; for (isize j = 0; j <= A.outerSize(); j++) std::cout << " " << A.outerIndexPtr()[j];
+                std::cout << "\ncscinner"; for (isize k = 0; k < A.nonZeros(); k++) std::cout << " " << A.innerIndexPtr()[k];
+                std::cout << "\ncscpre " << pre.str() << "\ncscpost";
+                for (isize k = 0; k < A.nonZeros(); k++) std::cout << " " << A.valuePtr()[k].str();
+                std::cout << "\n";
+            }
+            else if (c == "csc.transpose") {
+                RawS a = raw(t);
+                SMat A = sparse_of(a, false);
+                SMat C = A.transpose();
+                for (isize k = 0; k < C.nonZeros(); k++) C.valuePtr()[k] = Q(7);   // stale values, right pattern
+                sparse::transpose_no_allocation<Q, int>(A, C);
+                std::cout << "cscouter"; for (isize j = 0; j <= C.outerSize(); j++) std::cout << " " << C.outerIndexPtr()[j];
+                std::cout << "\ncscinner"; for (isize k = 0; k < C.nonZeros(); k++) std::cout << " " << C.innerIndexPtr()[k];
+                std::cout << "\ncscvals"; for (isize k = 0; k < C.nonZeros(); k++) std::cout << " " << C.valuePtr()[k].str();
+                std::cout << "\n";
+            }
             else if (c == "ord.amd") {
                 RawS a = raw(t);
                 SMat A = sparse_of(a, true);
